@@ -301,34 +301,50 @@ func (c *Ctx) checkedAtLink(mod *core.Module, fn *ssa.Function, reach map[*ssa.F
 	flow := core.NewNonNilFlow(c.M)
 	sites, field := 0, ""
 	var recvT *types.Named
-	for g := range reach {
-		for _, b := range g.Blocks {
-			for _, in := range b.Instrs {
-				call, ok := in.(*ssa.Call)
-				if !ok || call.Call.StaticCallee() != fn {
-					continue
-				}
-				sites++
-				guarded := false
-				for _, cond := range core.CondsAt(b) {
-					v, neq, isNil := core.NilCmp(cond.V)
-					if !isNil || neq == cond.True {
+	// every call of target that the data API can reach is guarded - or sits, unguarded, in an unexported helper all of
+	// whose calls are (the panic moved one function down from where the nil test is)
+	var sitesGuarded func(target *ssa.Function, depth int) bool
+	sitesGuarded = func(target *ssa.Function, depth int) bool {
+		if depth > 3 {
+			return false
+		}
+		n := 0
+		for g := range reach {
+			for _, b := range g.Blocks {
+				for _, in := range b.Instrs {
+					call, ok := in.(*ssa.Call)
+					if !ok || core.StaticBody(&call.Call) != target {
 						continue
 					}
-					if ld, ok := core.Unwrap(v).(*ssa.UnOp); ok {
-						if fa, ok := ld.X.(*ssa.FieldAddr); ok && len(g.Params) > 0 && fa.X == ssa.Value(g.Params[0]) {
-							f := fieldName(fa.X.Type(), fa.Field)
-							if field == "" || field == f {
-								field, guarded, recvT = f, true, structOf(fa.X.Type())
+					n++
+					if depth == 0 {
+						sites++
+					}
+					guarded := false
+					for _, cond := range core.CondsAt(b) {
+						v, neq, isNil := core.NilCmp(cond.V)
+						if !isNil || neq == cond.True {
+							continue
+						}
+						if ld, ok := core.Unwrap(v).(*ssa.UnOp); ok {
+							if fa, ok := ld.X.(*ssa.FieldAddr); ok && len(g.Params) > 0 && fa.X == ssa.Value(g.Params[0]) {
+								f := fieldName(fa.X.Type(), fa.Field)
+								if field == "" || field == f {
+									field, guarded, recvT = f, true, structOf(fa.X.Type())
+								}
 							}
 						}
 					}
-				}
-				if !guarded {
-					return ""
+					if !guarded && !(len(core.PlainSites(g)) > 0 && sitesGuarded(g, depth+1)) {
+						return false
+					}
 				}
 			}
 		}
+		return n > 0
+	}
+	if !sitesGuarded(fn, 0) {
+		return ""
 	}
 	if sites == 0 || field == "" || recvT == nil {
 		return ""
